@@ -346,6 +346,7 @@ func finishCheck(opts CheckOpts, CS *ContractSet, reports []*FuncReport, assumed
 						known[f.Text] = true
 						lines = append(lines, "KNOWN-FINDING: "+f.Text)
 					}
+					total-- // reported separately under known_finding_obligations, never counted as proved
 					continue
 				}
 				violations++
@@ -375,8 +376,7 @@ func finishCheck(opts CheckOpts, CS *ContractSet, reports []*FuncReport, assumed
 		"violations":  violations,
 		"coverage": map[string]any{
 			"obligations":              total,
-			"discharged":               discharged + len(knownSeenObls(reports, findings, opts.Prop)),
-			"discharged_by_solver":     discharged,
+			"discharged":               discharged,
 			"known_finding_obligations": knownSeenObls(reports, findings, opts.Prop),
 			"checker_cmd":              fmt.Sprintf("/verif/bin/govc check %s --tier %s  (SSA->SMT-LIB VC generator; solvers raced: z3 4.8.12, z3-new 5.1.0, cvc5 1.0; timeout %ds/query)", opts.Prop, opts.Tier, opts.Timeout),
 			"trusted_base":             trustedBase(),
